@@ -1,4 +1,5 @@
 use std::collections::BTreeMap;
+use std::convert::TryFrom;
 
 use serde::{Deserialize, Serialize};
 
@@ -15,7 +16,7 @@ use super::{FromMerge, StateLayout, StatementVer, StatementWrapper};
 use crate::Result;
 
 #[derive(Serialize, Deserialize, Debug, PartialEq, Eq, Clone)]
-#[serde(deny_unknown_fields)]
+#[serde(deny_unknown_fields, try_from = "StateV01Unchecked")]
 /// Statement `V0_1` means the statement of contains a predicate for SLSA format.
 ///
 /// Can be used together with most predicate.
@@ -26,6 +27,39 @@ pub struct StateV01 {
     #[serde(rename = "predicateType")]
     predicate_type: PredicateVer,
     predicate: PredicateWrapper,
+}
+
+/// Wire form of [`StateV01`] before the declared predicate type has been
+/// checked against the predicate that is actually contained.
+#[derive(Deserialize)]
+#[serde(deny_unknown_fields)]
+struct StateV01Unchecked {
+    #[serde(rename = "_type")]
+    typ: String,
+    subject: BTreeMap<VirtualTargetPath, TargetDescription>,
+    #[serde(rename = "predicateType")]
+    predicate_type: PredicateVer,
+    predicate: PredicateWrapper,
+}
+
+impl TryFrom<StateV01Unchecked> for StateV01 {
+    type Error = Error;
+
+    fn try_from(raw: StateV01Unchecked) -> Result<Self> {
+        let contained = raw.predicate.clone().into_trait().version();
+        if raw.predicate_type != contained {
+            return Err(Error::AttestationFormatDismatch(
+                raw.predicate_type.into(),
+                contained.into(),
+            ));
+        }
+        Ok(StateV01 {
+            typ: raw.typ,
+            subject: raw.subject,
+            predicate_type: raw.predicate_type,
+            predicate: raw.predicate,
+        })
+    }
 }
 
 impl StateLayout for StateV01 {
